@@ -227,4 +227,9 @@ def suite_hist(ctx):
     return histsw.suite_hist(ctx, 'C08')
 
 
-SUITES = [suite_call, suite_callw, suite_reentrant, suite_blocks, suite_two_clients, suite_hist]
+def suite_user_code(ctx):
+    """an application that extends the library with classes of its own (child process: harness/user_child.py subclass_exceptions)"""
+    return core.suite_user_code('subclass_exceptions', 'decorated client method')
+
+
+SUITES = [suite_call, suite_callw, suite_reentrant, suite_blocks, suite_two_clients, suite_hist, suite_user_code]
